@@ -22,6 +22,19 @@ func CertMessage(chainID []byte, h *blockchain.BlockHeader) []byte {
 // height h in (certified, min(precommitted, nextChange-1)] chosen by pick (0 = lowest, 1 = highest),
 // or nil if no height is certifiable at the moment.
 func (n *Node) CertifiableAggregate(pickHighest bool) *blockchain.AggregateCommit {
+	return n.certifiableAggregate(pickHighest, nil)
+}
+
+// UnderweightAggregate returns an aggregate commit for a certifiable height that is honest in every
+// respect (right block, right bit positions, real signatures) except that its signers - a subset
+// drawn by perm (a permutation source) and filled up as far as possible - hold less weight than
+// the certificate threshold of that height.  nil if no height is certifiable or no such non-empty
+// subset exists.
+func (n *Node) UnderweightAggregate(pickHighest bool, perm func(n int) []int) *blockchain.AggregateCommit {
+	return n.certifiableAggregate(pickHighest, perm)
+}
+
+func (n *Node) certifiableAggregate(pickHighest bool, underweight func(n int) []int) *blockchain.AggregateCommit {
 	store := n.Exec.VerifStateStore()
 	_, pre, cert, err := n.Exec.GetBFTHeights(store)
 	if err != nil {
@@ -75,8 +88,29 @@ func (n *Node) CertifiableAggregate(pickHighest bool) *blockchain.AggregateCommi
 	keys := make([][]byte, len(vals))
 	pairs := []*crypto.BLSPublicKeySignaturePair{}
 	msg := CertMessage(n.Chain.ChainID(), hdr)
+	signs := map[int]bool{}
+	if underweight != nil {
+		weight := map[string]uint64{}
+		for _, pv := range at.Validators {
+			weight[string(pv.Address)] = pv.Weight
+		}
+		var sum uint64
+		for _, i := range underweight(len(vals)) {
+			w := weight[string(vals[i].Address)]
+			if w > 0 && sum+w < at.CertificateThreshold {
+				signs[i] = true
+				sum += w
+			}
+		}
+		if len(signs) == 0 {
+			return nil
+		}
+	}
 	for i, v := range vals {
 		keys[i] = v.BLS.PublicKey
+		if underweight != nil && !signs[i] {
+			continue
+		}
 		pairs = append(pairs, &crypto.BLSPublicKeySignaturePair{PublicKey: v.BLS.PublicKey, Signature: crypto.BLSSign(msg, v.BLS.PrivateKey)})
 	}
 	bits, sig := crypto.BLSCreateAggSig(keys, pairs)
